@@ -99,3 +99,9 @@ PROPS["C07"] = dict(pkg="c07", shards=16, level="fault_enumeration",
     level_text="Fault enumeration: for each generated client script (valid and invalid frames in any order, step behaviours incl. gated ones released before or after the input ends) the whole script, every truncation offset of it (quick: every third offset at a generated phase; thorough: all) and failing-output variants are fed to the real server in a supervised worker; survival, return and the one-terminal-message-per-read-work-start invariant are checked.",
     level_note="The reference reading of a script follows the statement: the server reads frames until the first frame it cannot decode as a runtime message, client-done or the end of input; while the output stays open every work-start frame read before that owes exactly one terminal message for its run ID ('' when the frame carries no usable run/step ID). Message order is not judged. 'Returns' is judged after every gate has been opened, with an 8+4 s bound.",
     cap_s={"quick": 900, "thorough": 3400})
+
+PROPS["C08"] = dict(pkg="c08", shards=16, level="fault_enumeration",
+    technique="fault injection at every byte offset of recorded server transcripts, replayed to the real client by a causal fake server inside supervised workers; oracle = bounded return of every call, no panic / goroutine leak, and success only if an independent sequential reading of the faulted stream contains the intact work-done",
+    level_text="Fault enumeration: transcripts recorded from the real server (v3, 1-3 concurrent runs, with signal and error frames) and hand-built v1 transcripts are replayed causally to a real client with EOF / read error / byte corruption / garbage tail at every byte offset (quick: every fifth offset at a generated phase; thorough: all), hello variants and an independently failing write side; ReadSchema, all Execute calls and Close must return, without panic or leaked goroutines, and no success may be reported that the faulted stream does not contain.",
+    level_note="Errors are always acceptable outcomes; only fabricated successes, panics, hangs (4-8 s bounds inside the worker) and leaked client goroutines are violations. With a failing write side the server->client stream is additionally ended, because the property's premise is a broken server stream.",
+    cap_s={"quick": 900, "thorough": 3400})
